@@ -44,9 +44,15 @@ func init() {
 		Executors:  []string{"default", "default", "sync", "queued"},
 		NonTrivial: func(o *ConcOutcome) bool { return o.Switches > 4 },
 	})
+	c6ops := map[string]int{}
+	for k, v := range sizeOps {
+		c6ops[k] = v
+	}
+	c6ops["advance"] = 4 // with expiry configured the clock moves while other operations are in flight
+	c6ops["cleanup"] = 2
 	concSpec("C06", &ConcOpts{
 		Profile: Profile{Prop: "C06", NoRef: true, Keys: [2]int{2, 10}},
-		OpW:     sizeOps, Tasks: [2]int{2, 4}, OpsPer: [2]int{5, 25}, Prefill: [2]int{0, 8},
+		OpW:     c6ops, Tasks: [2]int{2, 4}, OpsPer: [2]int{5, 25}, Prefill: [2]int{0, 8},
 		Executors:  []string{"default", "sync", "queued"},
 		NonTrivial: func(o *ConcOutcome) bool { return o.Switches > 4 && o.Probes["atomic-events"] > 0 },
 	})
